@@ -199,15 +199,15 @@ def run_scenario(sc, base, fast=True, mode='each', real_passes=None, on_test=Non
         sys.stdin = os.fdopen(rfd, 'r')
     orig_copyfile = shutil.copyfile
     if sc.get('copy_fault') is not None:
-        # the k-th copy INTO a candidate / sanity folder writes part of the file and fails (ENOSPC on a full /tmp)
+        # the k-th copy INTO a candidate / sanity folder creates the file and fails before writing (ENOSPC on a full /tmp)
         left = {'k': sc['copy_fault']}
 
         def copyfile(src, dst, *a, **kw):
             if os.path.abspath(str(dst)).startswith(tmpd + os.sep):
                 left['k'] -= 1
                 if left['k'] == 0:
-                    with open(src, 'rb') as fi, open(dst, 'wb') as fo:
-                        fo.write(fi.read()[:1])
+                    with open(dst, 'wb'):
+                        pass      # created, nothing written yet
                     raise OSError(28, 'scripted: No space left on device')
             return orig_copyfile(src, dst, *a, **kw)
 
